@@ -156,6 +156,16 @@ def token_cases(draw):
             out.append(ln)
             if ln.startswith("#define") and more_sets and k < len(more_sets):
                 tab.update(more_sets[k])
+    if draw(st.integers(0, 2)) == 0:
+        # invocations that begin inside one macro's replacement list and are completed by the text after it (C11 6.10.3.4p4,
+        # example 5 of 6.10.3.5), with macros that expand to commas, parentheses or nothing in the completing text
+        out.append("#define ZFST(a, ...) a\n#define ZID(a) [a]\n#define ZTWO(a, b) <a|b>\n#define ZPAIR 2, 40\n#define ZONE 1\n#define ZNONE\n"
+                   "#define ZCL )\n#define ZOPF ZFST(1 +\n#define ZOPI ZID(1 +\n#define ZOPT ZTWO(3 ZNONE\n#define ZOPN ZID\n#define ZOPV ZFST(ZPAIR\n"
+                   + ("" if strict else "#define ZSTR(x) #x x\n#define ZOPS ZSTR(p\n"))
+        tails = ["ZPAIR, 9)", "ZONE)", "ZPAIR)", "ZONE, ZPAIR)", ", ZPAIR)", "ZNONE, ZNONE ZONE)", "(ZPAIR))", "ZCL", "ZONE ZCL", ", ZONE ZCL ZCL", "ZNONE ) ZONE"]
+        heads = ["ZOPF", "ZOPI", "ZOPT", "ZOPV", "ZOPN (", "ZOPN ZNONE ("] + ([] if strict else ["ZOPS"])
+        for _ in range(draw(st.integers(1, 5))):
+            out.append("%s %s ;" % (draw(st.sampled_from(heads)), draw(st.sampled_from(tails))))
     return "\n".join(out) + "\n"
 
 
